@@ -12,6 +12,10 @@ import (
 )
 
 type Config struct {
+	// BudgetIsViolation: a path that exhausts its instruction budget is also recorded as a violation
+	// candidate of kind "budget" (the check reports it only when the native replay of its tape does
+	// not come back either); for the property that demands termination
+	BudgetIsViolation bool
 	MaxPaths        int   // per harness
 	MaxSteps        int64 // per path
 	MaxDecisions    int   // per path
@@ -329,6 +333,12 @@ func (wk *Worker) runPath(t task) (res PathResult) {
 		case *pathAbort:
 			res.Status = r.kind
 			res.Detail = r.detail
+			if wk.cfg.BudgetIsViolation && r.kind == "limit" && strings.HasPrefix(r.detail, "instruction budget") {
+				func() {
+					defer func() { _ = recover() }()
+					wk.violation(nil, "terminates-within-budget", "budget", r.detail)
+				}()
+			}
 		case *goPanic:
 			res.Status = "panic"
 			res.Detail = r.msg + " @ " + r.pos
